@@ -11,7 +11,7 @@ import XotModel.Lemmas.FmapMove
 import XotModel.Lemmas.FmapHistPos
 import XotModel.Lemmas.FmapHistSer
 import XotModel.Lemmas.FmapRetHist
-import XotModel.Lemmas.FmapNodesHist
+import XotModel.Lemmas.FmapRefRun
 import XotModel.Model.ValueAccess
 
 namespace XotModel.Props
@@ -982,8 +982,8 @@ example : (runCalls c11Example3
   (`knFollow`): after a call the list is the key list of the reference map, each key with the
   node that carried it before, a key that was not there with the node the call GIVES
   (`MapCall.given`: the parentless node passed in, the entry node of the other element, which
-  moves, or the node made on the spot, whose handle `fresh` = `next` the reference is told,
-  handles being opaque).  So the reference returns nodes on its own (`viewOf`, `specRetsN`). -/
+  moves, or the node made on the spot, whose handle is the reference's own fresh-handle counter).
+  So the reference runs on its own (`RefState`, `refRun`) and returns nodes itself. -/
 
 /-- One call, every view of every node: the (key, node) list afterwards is exactly the
     reference's — the reference map's keys in order, every key that was there carried by the same
@@ -1002,17 +1002,35 @@ theorem C11_step_nodes (f : Forest) (hi : f.Inv) (F : Fam) (hF : ∀ x k, abs k 
   rw [h]
   exact List.mem_map.mpr ⟨key, hkey, rfl⟩
 
-/-- Histories with the nodes: along every history of calls (the hypotheses of
-    `C11_histories_returns`) every step returns what the reference returns, the reference now
-    deriving the returned NODES from its own node family (`specRetsN`: of the states gone through
-    only `next`, the handle a node creation hands out, is consulted); and afterwards the (key,
-    node) list of both views of every node is the reference's (`specCallsN`). -/
-theorem C11_histories_nodes (f : Forest) (hi : f.Inv) (cs : List MapCall)
+/-- One call on the reference state.  `RefState` = the family of ordered maps, the (key, node)
+    lists, the fresh-handle counter; `refOf f` reads it off a forest.  A call whose side
+    conditions hold takes the reference state of the forest to the reference state of the new
+    forest (`MapCall.refStep`: maps by `MapCall.spec`, nodes by `knFollow`, the counter advanced by
+    the number of nodes made), and returns what the reference returns from its own state
+    (`MapCall.refRet`). -/
+theorem C11_step_reference (f : Forest) (hi : f.Inv) (c : MapCall) (hok : c.ok f = true) :
+    refOf (c.run f).1 = c.refStep (refOf f) ∧ (c.run f).2.2 = c.refRet (refOf f) ∧
+    (c.run f).1.next = f.next + c.creates (famOf f) :=
+  let r := refOf_step hi c hok
+  ⟨r.1, r.2, call_next hi (fun _ _ => rfl) c hok⟩
+
+/-- Histories on the reference alone.  Run the history on the reference state of the start
+    forest only (`refRun`: no forest is consulted): along every history of calls (the hypotheses
+    of `C11_histories_returns`) the model returns, step by step, exactly what that run returns —
+    old values, values behind references, NODES — and ends in a forest whose reference state is
+    the run's final state: every view of every node (content and order), which node carries
+    which key, and the next fresh handle. -/
+theorem C11_histories_reference (f : Forest) (hi : f.Inv) (cs : List MapCall)
     (hok : (runCalls f cs).2.2 = true) :
-    (runCalls f cs).2.1.map (·.2) = specRetsN f (famOf f) (nfamOf f) cs ∧
-    (∀ e k, absKN k (runCalls f cs).1 e = specCallsN f (famOf f) (nfamOf f) cs e k) := by
-  obtain ⟨h1, h2⟩ := history_nodes cs f (famOf f) hi (fun _ _ => rfl) hok
-  exact ⟨h1, fun e k => congrFun (congrFun h2 e) k⟩
+    (runCalls f cs).2.1.map (·.2) = (refRun (refOf f) cs).1 ∧
+    (∀ e k, abs k (runCalls f cs).1 e = (refRun (refOf f) cs).2.fam e k) ∧
+    (∀ e k, absKN k (runCalls f cs).1 e = (refRun (refOf f) cs).2.nodes e k) ∧
+    (runCalls f cs).1.next = (refRun (refOf f) cs).2.fresh := by
+  obtain ⟨h1, h2⟩ := history_ref cs f hi hok
+  refine ⟨h1, fun e k => ?_, fun e k => ?_, ?_⟩
+  · exact congrFun (congrFun (congrArg RefState.fam h2) e) k
+  · exact congrFun (congrFun (congrArg RefState.nodes h2) e) k
+  · exact congrArg RefState.fresh h2
 
 /-- `knFollow` on its own terms: the keys are the given key list; a key that was there keeps its
     node; a key that was not is carried by `given`. -/
@@ -1027,15 +1045,17 @@ theorem C11_knFollow (old : List (Nat × Nat)) (keys' : List Nat) (given : Nat) 
   · intro key hk hl
     exact List.mem_map.mpr ⟨key, hk, by rw [hl]; rfl⟩
 
-/-- The reference returns along `c11CallsA`, nodes included, from the reference families of the
-    start state; and its node family at the end. -/
-example : specRetsN c11Example3 (famOf c11Example3) (nfamOf c11Example3) c11CallsA =
+/-- The history `c11CallsA` run on the reference state of `c11Example3` alone: what it returns,
+    nodes included, its node lists at the end, and its counter (one node was made: handle 9). -/
+example : (refRun (refOf c11Example3) c11CallsA).1 =
     [.value (some (.str ['v'])), .value (some (.str ['w'])), .value none,
      .value (some (.str ['x'])), .value (some (.str ['c'])), .node (some 9), .node (some 3),
      .value (some (.ns 2)), .key 7, .value (some (.ns 4)), .node (some 3), .bool false] ∧
-    specCallsN c11Example3 (famOf c11Example3) (nfamOf c11Example3) c11CallsA 5 .attributes =
-      [(7, 6), (9, 9), (3, 3)] ∧
-    specCallsN c11Example3 (famOf c11Example3) (nfamOf c11Example3) c11CallsA 1 .attributes = [] := by
+    (refRun (refOf c11Example3) c11CallsA).2.nodes 5 .attributes = [(7, 6), (9, 9), (3, 3)] ∧
+    (refRun (refOf c11Example3) c11CallsA).2.nodes 1 .attributes = [] ∧
+    (refRun (refOf c11Example3) c11CallsA).2.fam 5 .attributes =
+      [(7, .str ['x']), (9, .str ['n']), (3, .str ['q'])] ∧
+    (refRun (refOf c11Example3) c11CallsA).2.fresh = 10 := by
   decide
 
 end XotModel.Props
